@@ -513,8 +513,8 @@ pub fn record(args: &Args) {
         }
         if rep == 0 || thorough {
             // one large configuration: table of 8192 slots
-            let ops = random_ops(&mut rng, if thorough { 17000 } else { 9000 }, 5, false);
-            run(&mut out, "theta-random", 12, 3, 1.0, 9001, &ops);
+            let ops = random_ops(&mut rng, if thorough { 17000 } else { 4600 }, 5, false);
+            run(&mut out, "theta-random", if thorough { 12 } else { 11 }, 3, 1.0, 9001, &ops);
         }
         for &lgk in &[5u8, 6, 7, 8] {
             for rf in 0..4u8 {
